@@ -96,6 +96,11 @@ class FFCXBackendSymbols:
         # Table for chunk of custom quadrature points (physical coordinates).
         self.custom_points_table = L.Symbol("points_chunk", dtype=L.DataType.REAL)
 
+        # Kernel-local numbering of domains (in order of first use), used to name
+        # Jacobian symbols. The global ufl_id of a mesh depends on how many meshes
+        # were created before it, and must not leak into the generated code.
+        self.domain_numbering = {}
+
     def entity(self, entity_type: entity_types, restriction):
         """Entity index for lookup in element tables."""
         if entity_type == "cell":
@@ -138,10 +143,9 @@ class FFCXBackendSymbols:
 
     def J_component(self, mt):
         """Jacobian component."""
-        return L.Symbol(
-            format_mt_name(f"J{ufl.domain.extract_unique_domain(mt.expr).ufl_id()}", mt),
-            dtype=L.DataType.REAL,
-        )
+        domain = ufl.domain.extract_unique_domain(mt.expr)
+        n = self.domain_numbering.setdefault(domain, len(self.domain_numbering))
+        return L.Symbol(format_mt_name(f"J{n}", mt), dtype=L.DataType.REAL)
 
     def domain_dof_access(self, dof, component, gdim, num_scalar_dofs, restriction):
         """Domain DOF access."""
